@@ -259,6 +259,25 @@ Theorem C01_estimated_grid_is_not_the_timestamps :
 Proof. exact estimated_grid_differs. Qed.
 Print Assumptions C01_estimated_grid_is_not_the_timestamps.
 
+(* select(timerange=(a, b)) (dataset.py:771-772 compares sensor.timestamps[:], C02's timerange_mask): when the dump
+   times of the select() model are the cache's times (unit u after t0 -- the harness derives them from the STORED
+   timestamps), a dump is kept iff its DATA SET timestamp lies in [a + dump / 2, b - dump / 2] *)
+Theorem C01_timerange_on_dataset_timestamps : forall c t0 u lo hi, cfg_ok c -> zlen (c_ts c) = stored_rows c ->
+  (0 < u)%Q -> obs_times_ok c t0 u ->
+  Forall2 (fun (b : bool) (t : Q) =>
+             b = true <-> (t0 + inject_Z (lo + Select.o_half (c_obs c)) * u <= t
+                           /\ t <= t0 + inject_Z (hi - Select.o_half (c_obs c)) * u)%Q)
+          (Select.timerange_mask (c_obs c) lo hi) (timestamps c (Select.init (c_obs c))).
+Proof. exact timerange_on_timestamps. Qed.
+Print Assumptions C01_timerange_on_dataset_timestamps.
+
+(* non-vacuity: the late-dump file with times in half seconds after 101: timerange (102.5, 107) keeps the late dump 1
+   (mid-dump 103.5) and dump 2 *)
+Theorem C01_timerange_example : obs_times_ok ex_late 101 (1 # 2)
+  /\ Select.timerange_mask (c_obs ex_late) 3 12 = [false; true; true; false].
+Proof. exact ex_late_times_ok. Qed.
+Print Assumptions C01_timerange_example.
+
 (* FINDING C01r-F1 (open, by design of the v1 / v2 readers): sensors that are extracted WHILE __init__ partitions the
    data set into scans (v2: activity and target of the reference antenna, the labels; hence Observation/scan_state,
    scan_index, label, compscan_index, target) are aligned with the array the cache holds at that moment
